@@ -68,6 +68,14 @@ CLAIMS = {
             "13 library obligations are discharged for all arguments in the documented domain; import behaviour is covered by an enumerated scope of import graphs (bounded stand-in).",
             "Trusted: S3 as the meaning of Facto source (assumes C01), spec/libdocs.py as the meaning of the documentation, floor-division identity (self-checked).",
             "DESIGN §4 C17"),
+    "C08": ("other", "bounded check of the real pipeline's blueprints against S4 prototype geometry (collision boxes, wire reach) and of relay isolation against the compiler's own signal graph",
+            "Bounded stand-in (labelled bounded): programs x option sets; CP-SAT's own nondeterminism is not enumerated.",
+            "Trusted: game data shipped with draftsman, Euclidean centre distance for wire length.",
+            "DESIGN §4 C08"),
+    "C18": ("other", "bounded check of the real pipeline's blueprints with --power-poles T against S4 (supply areas, copper reach, energy sources)",
+            "Bounded stand-in; on the pinned tree per-consumer coverage and grid connectivity are recorded known findings (KF-C18-*), while coverage collapse, missing grid, over-long copper wires and stray poles are violations.",
+            "Trusted: game data shipped with draftsman.",
+            "DESIGN §4 C18"),
     "C16": ("other", "contract-based deductive verification (pyvc VCs with inductive loop invariants + variants on the real ForStmt.get_iteration_values) plus bounded stand-ins for the lowering plumbing",
             "The iteration sequence is proved for all (start, stop, step) and list iterators; the per-iteration scoping in the analyzer/lowerer is checked by bounded stand-ins, labelled as such.",
             "Trusted: pyvc encoding, composition lemma, 'IR equal up to fresh ids => same circuit'.",
